@@ -24,7 +24,7 @@ RULE = ("generated host trees (depth <= 4, <= 40 entries, file sizes 0 to severa
         "each other), relative and absolute symlinks to files, directories, other links (chains up to 13), "
         "ancestors (cycles), themselves, missing names, paths outside every mount, secret mounts, collection "
         "mounts (files, directories, missing paths, the mount's `path` subtree), mount points beneath the output "
-        "path; 0-2 read-only collection mounts with generated manifests (1-3 streams, 0-3 blocks, files spanning "
+        "path, a second collection mounted on a directory inside the first one (4 % of the irregular-profile trees); 0-2 read-only collection mounts with generated manifests (1-3 streams, 0-3 blocks, files spanning "
         "blocks, zero-length files, repeated file tokens, empty-directory markers, escaped names), 0-2 secret "
         "mounts (inside and outside the output path); directories that leave five or more blocks to commit when the "
         "copier moves on to another directory (6 % of the trees); plus irregular link targets (absolute targets that are not "
@@ -173,6 +173,22 @@ def impossible_mountpoint(c):
                 n = c.host.get(HOSTOUT + root[len(c.ctr_out):k])
                 if n is not None and n[0] != "d":
                     return True
+            # the mount point itself is a directory of the host output directory (the container runtime creates
+            # it there), unless it lies inside another mount
+            if not any(o != root and len(c.ctr_out) < len(o) < len(root) and root[:len(o)] == o for o in c.mounts):
+                if any(c.host.get(HOSTOUT + root[len(c.ctr_out):k]) is None for k in range(len(c.ctr_out) + 1, len(root) + 1)):
+                    return True
+    # a mount point inside a read-only collection mount must be a directory of that collection (nothing can be
+    # created there)
+    for root in c.mounts:
+        for outer, m in c.mounts.items():
+            if len(outer) < len(root) and root[:len(outer)] == outer and m["kind"] == "collection" and not m["w"] \
+                    and m["coll"] is not None:
+                rel = tuple(x for x in m["path"].split("/") if x not in ("", ".")) + root[len(outer):]
+                if ".." in rel:
+                    return True
+                if not any(k[:len(rel)] == rel and len(k) > len(rel) for k in m["coll"]):
+                    return True
     return False
 
 
@@ -198,6 +214,7 @@ class View:
         self.max_used = 0
         self.host_bytes = 0
         self.irregular = []    # (dest, 'a' | 'b') for followed links whose target is not in canonical form
+        self.nested = []       # output paths at which a mount lies inside the directory tree of a mounted collection
         self.links = 0
 
     # --- namespace
@@ -344,8 +361,15 @@ class View:
             coll, r, q = land[1], land[2], land[3]
             if dest:
                 self.dirs.add(dest)
+            # a mount strictly below q hides what the collection itself has there (the container sees the inner mount)
+            inner = [root for root in self.c.mounts if len(root) > len(q) and root[:len(q)] == q]
+            for root in inner:
+                self.nested.append(dest + root[len(q):])
             for key, data in coll.items():
                 if key[:len(r)] == r and len(key) > len(r):
+                    cpath = q + (key[len(r):-1] if key[-1] == "." and data == b"" else key[len(r):])
+                    if any(cpath[:len(root)] == root for root in inner):
+                        continue
                     d = dest + key[len(r):]
                     if key[-1] == "." and data == b"":
                         self.dirs.add(d[:-1])
@@ -541,7 +565,7 @@ def oracle(case, impl):
             problems.append((p, "saved output differs from the output directory: /%s: %s" % ("/".join(p), w)))
     if problems:
         # lead with what no irregular link (known findings F17a/F17b) can explain
-        irr = [d for d, _ in v.irregular]
+        irr = [d for d, _ in v.irregular] + list(v.nested)
         problems.sort(key=lambda pw: under(pw[0], irr))
         return "; ".join(w for _, w in problems[:4])
     if not v.free and int(put) != v.host_bytes:
@@ -569,23 +593,29 @@ def compare(case, impl, model):
 
 
 def finding_of(case, impl, why, model=None):
-    """Known findings F17a / F17b, matched by their witness shape only (F17c - a link cycle through a collection
-    mounted above the output path was followed forever - is fixed by /repo f009595; `diverge` is always a violation):
+    """Known findings F17a / F17b / F17d, matched by their witness shape only (F17c - a link cycle through a
+    collection mounted above the output path was followed forever - is fixed by /repo f009595; `diverge` is always a
+    violation):
       a  a followed link whose target is an absolute path that is not path-cleaned (a component "", "." or "..");
       b  a followed link whose target path passes through a symlinked directory (the container's resolution of the
-         target meets a symbolic link before its last component).
+         target meets a symbolic link before its last component);
+      d  a mount whose mount point is a directory inside a mounted read-only collection (nested mounts): the copier
+         extracts the outer collection whole, so what the inner mount hides is saved too (extra paths, or one file
+         made of the outer and the inner file's segments).
     Successful copy: EVERY divergence from the container's view (secret bytes in the output, wrong / missing /
-    extra paths, a link that should have made the copy fail) must lie at or below the output path of such a link;
-    a divergence anywhere else keeps the case a VIOLATION. Failed copy (a whole-copy result that cannot be
-    localised): only the error classes these shapes produce (lstat: the host resolves the intermediate link in its
-    own namespace; notmounted: the uncleaned spelling matches no mount), and only where the implementation behaves
-    exactly as the model of the unfixed code predicts (when the model was run on the case)."""
+    extra paths, a link that should have made the copy fail) must lie at or below the output path of such a link /
+    such an inner mount; a divergence anywhere else keeps the case a VIOLATION. Failed copy (a whole-copy result
+    that cannot be localised): only the error classes these shapes produce (lstat: the host resolves the
+    intermediate link in its own namespace; notmounted: the uncleaned spelling matches no mount; fs: the outer
+    collection's file and the inner mount's directory - or the reverse - claim one path), and only where the
+    implementation behaves exactly as the model of the unfixed code predicts (when the model was run on the case)."""
     if not why:
         return None
     v = view_of(case)
     if v is None:
         return None
-    if not v.irregular:
+    regions = list(v.irregular) + [(d, "d") for d in v.nested]
+    if not regions:
         return None
     if impl.startswith("ok "):
         c = parse_case(case)
@@ -597,7 +627,7 @@ def finding_of(case, impl, why, model=None):
             return None            # e.g. only the byte count differs: not one of the known shapes
         kinds = set()
         for p in paths:
-            ks = {k for d, k in v.irregular if p[:len(d)] == d}
+            ks = {k for d, k in regions if p[:len(d)] == d}
             if not ks:
                 return None
             kinds |= ks
@@ -605,12 +635,17 @@ def finding_of(case, impl, why, model=None):
         if model is not None:
             if not compare(case, impl, model):
                 return None
-        elif impl not in ("err lstat", "err notmounted"):
+        elif impl not in ("err lstat", "err notmounted", "err fs"):
             return None
-        kinds = {k for _, k in v.irregular}
+        if v.irregular:
+            kinds = {k for _, k in v.irregular}
+        elif impl == "err fs":
+            kinds = {"d"}
+        else:
+            return None
     else:
         return None
-    return "F17a" if "a" in kinds else "F17b"
+    return "F17a" if "a" in kinds else "F17b" if "b" in kinds else "F17d"
 
 
 # ----------------------------------------------------------------------------- generator
@@ -777,6 +812,27 @@ class Gen:
                 self.add((n,), "f", (self.fresh_seed(), r.choice([0, 0, 3])))
                 ci = self.gen_coll()
                 self.mounts.append((self.ctr_out + "/" + n + "/m", "collection", "", ci, ""))
+        colls = [m for m in self.mounts if m[1] == "collection" and isinstance(m[3], int) and m[3] < len(self.coll_paths)]
+        if r.random() < self.profile.get("nested", 0.04) and not self.profile.get("clean") and len(colls) == 1:
+            # nested mounts: a second collection mounted on a directory inside the first one (the container sees the
+            # inner collection there; shape of finding F17d); now and then on a file or a missing name of the outer
+            # collection (no container can look like that: only model = implementation is checked)
+            m = colls[0]
+            fs, ds = self.coll_paths[m[3]]
+            base = tuple(c for c in m[4].split("/") if c not in ("", "."))
+            dcands = [p[len(base):] for p in ds if p[:len(base)] == base and len(p) > len(base)]
+            fcands = [p[len(base):] for p in fs if p[:len(base)] == base and len(p) > len(base)]
+            x = r.random()
+            inner = None
+            if x < 0.8 and dcands:
+                inner = r.choice(dcands)
+            elif x < 0.9 and fcands:
+                inner = r.choice(fcands)
+            elif dcands or x >= 0.9:
+                inner = (r.choice(dcands) if dcands else ()) + ("nomount",)
+            if inner:
+                ci = self.gen_coll()
+                self.mounts.append((m[0] + "".join("/" + c for c in inner), "collection", "", ci, ""))
         if r.random() < self.profile.get("above", 0.03) and self.ctr_out.count("/") >= 2:
             # a collection mounted above the output path (its mount point is the output path's parent)
             ci = self.gen_coll()
@@ -1108,7 +1164,7 @@ def nontrivial_key(case, impl):
 
 
 def describe(cases, impl):
-    d = {"outcomes": {}, "links_followed": 0, "cases_with_irregular_link": 0, "cases_with_cycle": 0,
+    d = {"outcomes": {}, "links_followed": 0, "cases_with_irregular_link": 0, "cases_with_nested_mounts": 0, "cases_with_cycle": 0,
          "cases_must_fail": 0, "cases_with_dangling": 0, "mounts_below_output": 0, "collection_mounts": 0,
          "secrets": 0, "max_chain": 0, "cases_with_11_links_on_a_path": 0, "cases_with_12plus_links_on_a_path": 0, "entries": {}, "multi_block_files": 0, "special_files": 0}
     for c, r in zip(cases, impl):
@@ -1131,6 +1187,8 @@ def describe(cases, impl):
         if v is not None:
             d["links_followed"] += v.links
             d["cases_with_irregular_link"] += 1 if v.irregular else 0
+            d["cases_with_nested_mounts"] += 1 if any(len(a) < len(b) and b[:len(a)] == a and m["kind"] == "collection"
+                                                      for a, m in pc.mounts.items() for b in pc.mounts) else 0
             d["cases_with_cycle"] += 1 if v.cycle else 0
             d["cases_must_fail"] += 1 if v.bad else 0
             d["cases_with_dangling"] += 1 if v.free else 0
